@@ -611,6 +611,9 @@ def obligations(tier, seed):
     for gname, level in (('frac_ll', 1), ('frac_ul', 2), ('utm_ll', 1)) + ((('frac_ll', 3), ('utm_ul', 2), ('merc_ll', 2), ('multi0_ul', 1)) if tier == 'thorough' else ()):
         specs.append(spec(MOD, 'TileURLBBox', 'tile-url-bbox-is-the-full-tile-rectangle/%s/L%d' % (gname, level), cfg=dict(grid=gname, level=level), cost=3))
     specs.append(spec(MOD, 'TileURLBBox', 'twin/TileURLBBox', kind='witness', cfg=dict(grid='frac_ll', level=1)))
+    specs.append(spec(MOD, 'TileURLBBox', 'canary/tile url bbox clipped to the grid extent', kind='canary', cfg=dict(grid='frac_ll', level=1), cost=3,
+                      patches={'mapproxy.client.tile': [["    return '%.8f,%.8f,%.8f,%.8f' % grid.tile_bbox(tile_coord)",
+                                                         "    return '%.8f,%.8f,%.8f,%.8f' % grid.tile_bbox(tile_coord, limit=True)"]]}))
     specs.append(spec(MOD, 'RescaledTile', 'twin/RescaledTile', kind='witness', cfg=dict(grid='utm_ll', level=1, dir=1)))
     specs.append(spec(MOD, 'RescaledTile', 'canary/missing source tiles dropped from the mosaic list', kind='canary', cfg=dict(grid='utm_ll', level=1, dir=1), cost=10,
                       patches={'mapproxy.cache.tile': [("            tile_sources.append(t.source if t.source is not RESCALE_TILE_MISSING else None)",
